@@ -74,6 +74,11 @@ const SIZES: [u16; SIZE_TIERS - 1] = [
 	24265, 24936, 25626, 26335, 27064, 27812, 28582, 29372, 30185, 31020, 31878, 32760,
 ];
 
+#[cfg(pdb_verif)]
+pub(crate) fn verif_sizes() -> &'static [u16] {
+	&SIZES
+}
+
 #[derive(Debug)]
 struct Tables {
 	index: IndexTable,
@@ -609,6 +614,12 @@ impl HashColumn {
 			tables.index.id,
 		);
 		// Start reindex
+		#[cfg(pdb_verif)]
+		crate::verif::ev(
+			crate::verif::EV_TRIGGER_REINDEX,
+			tables.index.id.col() as u64,
+			tables.index.id.index_bits() as u64 + 1,
+		);
 		let new_index_id =
 			IndexTableId::new(tables.index.id.col(), tables.index.id.index_bits() + 1);
 		let new_table = IndexTable::create_new(path, new_index_id);
@@ -1891,6 +1902,63 @@ impl HashColumn {
 			num_entries += value_table.get_num_entries()?;
 		}
 		Ok(num_entries)
+	}
+}
+
+#[cfg(pdb_verif)]
+impl Column {
+	pub(crate) fn verif_digest(&self, h: &mut crate::verif::Hasher, d: &mut crate::verif::Digest) {
+		match self {
+			Column::Hash(c) => {
+				h.tag("hash_column");
+				let tables = c.tables.read();
+				h.u64(tables.index.id.as_u16() as u64);
+				h.u64(tables.index.verif_has_file() as u64);
+				d.index_bits.push(tables.index.id.index_bits());
+				for t in tables.value.iter() {
+					if !t.verif_is_default() {
+						t.verif_digest(h);
+					}
+				}
+				if let Some(rc) = tables.ref_count.as_ref() {
+					h.u64(rc.id.as_u16() as u64);
+					h.u64(rc.verif_has_file() as u64);
+				}
+				let reindex = c.reindex.read();
+				d.reindex_queue += reindex.queue.len();
+				h.u64(reindex.queue.len() as u64);
+				for e in reindex.queue.iter() {
+					match e {
+						ReindexEntry::Index(t) => {
+							h.u64(1);
+							h.u64(t.id.as_u16() as u64);
+							h.u64(t.verif_has_file() as u64);
+						},
+						ReindexEntry::RefCount(t) => {
+							h.u64(2);
+							h.u64(t.id.as_u16() as u64);
+							h.u64(t.verif_has_file() as u64);
+						},
+					}
+				}
+				h.u64(reindex.progress.load(Ordering::SeqCst));
+				if let Some(cache) = c.ref_count_cache.as_ref() {
+					let cache = cache.read();
+					let mut e: Vec<_> = cache.iter().map(|(k, v)| (*k, *v)).collect();
+					e.sort();
+					h.u64(e.len() as u64);
+					for (k, v) in e {
+						h.u64(k);
+						h.u64(v);
+					}
+				}
+			},
+			Column::Tree(c) => {
+				h.tag("btree_column");
+				d.index_bits.push(0);
+				c.verif_digest(h);
+			},
+		}
 	}
 }
 
